@@ -33,11 +33,14 @@ def cmd_origin(c, a, rec):
             c.sendall(rest)
         _echo_loop(c)
     elif parts[0] == 'slow':
+        # reads late; the sender pauses after its burst and keeps the connection open: everything it sent must
+        # arrive without it sending or closing anything more
         tok, n = parts[1], int(parts[2])
         time.sleep(0.8)
         got = rest
+        c.settimeout(12)
         try:
-            while True:
+            while len(got) < n:
                 d = c.recv(65536)
                 if not d:
                     break
@@ -47,10 +50,56 @@ def cmd_origin(c, a, rec):
         want = pattern(n, 23)
         with vlock:
             verdicts[tok] = (len(got), got == want, (next((i for i in range(min(len(got), n)) if got[i] != want[i]), None)))
+        try:
+            c.settimeout(20)
+            while c.recv(65536):
+                pass
+        except OSError:
+            pass
+    elif parts[0] == 'flood':
+        # origin speaks first and stops the moment the proxy's socket towards the (not yet reading) client is full:
+        # watched in /proc/net/tcp; then stays silent with the connection open
+        tok, lport, cport = parts[1], int(parts[2]), int(parts[3])
+        def txq():
+            want_l, want_r = '0100007F:%04X' % lport, '0100007F:%04X' % cport
+            try:
+                for line in open('/proc/net/tcp').read().splitlines()[1:]:
+                    f = line.split()
+                    if f[1] == want_l and f[2] == want_r:
+                        return int(f[4].split(':')[0], 16)
+            except OSError:
+                pass
+            return None
+        sent = 0
+        same = 0
+        last = -1
+        piece = 0
+        try:
+            c.settimeout(10)
+            while sent < (64 << 20) and same < 2:
+                c.sendall(pattern(8192, (piece * 7) & 0xff))
+                sent += 8192
+                piece += 1
+                time.sleep(0.003)
+                q = txq()
+                if q is None:
+                    break
+                same = same + 1 if (q == last and q > 0) else 0
+                last = q
+            with vlock:
+                verdicts[tok] = (sent, True, None)
+            c.settimeout(20)
+            c.recv(16)
+        except OSError:
+            with vlock:
+                verdicts.setdefault(tok, (sent, False, None))
     elif parts[0] == 'burst':
         tok, n = parts[1], int(parts[2])
         try:
             c.sendall(pattern(n, 29))
+            # pause with the connection open until the client has everything (it says so), then end the stream
+            c.settimeout(20)
+            c.recv(16)
             c.shutdown(socket.SHUT_WR)
             while c.recv(65536):
                 pass
@@ -277,25 +326,22 @@ def script_bulk(lname, pa, n):
         s.close()
 
 def script_slow_consumer(lname, pa, n):
-    """the receiving end does not read for a while, so the proxy meets full socket buffers and short writes"""
+    """the receiving end does not read for a while, so the proxy meets full socket buffers and short writes; the
+    sender then PAUSES with the connection open (no further byte, no end of stream to flush anything out)"""
     tok = new_tok()
     s, rest = open_tunnel(lname, pa, origin.port, f'slow {tok} {n}\n'.encode())
     try:
         s.settimeout(30)
         s.sendall(pattern(n, 23))
-        try:
-            s.shutdown(socket.SHUT_WR)
-        except OSError:
-            s.unwrap() if hasattr(s, 'unwrap') else None
         v = None
-        for _ in range(400):
+        for _ in range(300):
             with vlock:
                 v = verdicts.get(tok)
             if v:
                 break
             time.sleep(0.05)
         if not v:
-            return 'slow-origin:origin never saw the end of the stream'
+            return 'slow-origin:origin still waiting for bytes 15 s after the client had sent everything (sender paused, connection open)'
         if not v[1]:
             return f'slow-origin:{("lost" if v[2] is None else "corrupted")} {v[0]}/{n} first bad offset {v[2]}'
     finally:
@@ -304,7 +350,7 @@ def script_slow_consumer(lname, pa, n):
     s, rest = open_tunnel(lname, pa, origin.port, f'burst {tok} {n}\n'.encode())
     try:
         time.sleep(0.8)
-        s.settimeout(30)
+        s.settimeout(12)
         got = rest
         try:
             while len(got) < n:
@@ -317,9 +363,67 @@ def script_slow_consumer(lname, pa, n):
         want = pattern(n, 29)
         if got != want:
             bad = next((i for i in range(min(len(got), n)) if got[i] != want[i]), None)
-            return f'slow-client:{("lost" if bad is None else "corrupted")} {len(got)}/{n} first bad offset {bad}'
+            return f'slow-client:{("lost-or-withheld" if bad is None else "corrupted")} {len(got)}/{n} first bad offset {bad} (origin paused after its burst, connection open)'
+        try:
+            s.sendall(b'thanks')
+        except OSError:
+            pass
         return 'ok'
     finally:
+        s.close()
+
+def script_tls_backpressure(lname, pa):
+    """TLS towards the client, client not reading: the origin stops exactly when the proxy's socket is full and
+    pauses; whatever the proxy has taken from the origin must still reach the client"""
+    tok = new_tok()
+    if lname == 'http+tls':
+        raw = socket.create_connection(('127.0.0.1', pa['https']), timeout=8)
+        lport = pa['https']
+    else:
+        raw = socket.create_connection(('127.0.0.1', pa['sockss']), timeout=8)
+        lport = pa['sockss']
+    cport = raw.getsockname()[1]
+    s = tls_wrap(raw)
+    cmd = f'flood {tok} {lport} {cport}\n'.encode()
+    try:
+        if lname == 'http+tls':
+            _, code, head, rest = http_connect(None, f'127.0.0.1:{origin.port}', early=cmd, sock=s, timeout=8)
+            if code != 200:
+                return f'tunnel-not-established:{head[:40]!r}'
+        else:
+            _, r = socks5_connect(None, '127.0.0.1', origin.port, early=cmd, sock=s, timeout=8)
+            rest = b''
+            if r['rep'] != 0:
+                return f'tunnel-not-established:{r}'
+        v = None
+        for _ in range(400):
+            with vlock:
+                v = verdicts.get(tok)
+            if v:
+                break
+            time.sleep(0.05)
+        if not v or not v[1]:
+            return f'tls-backpressure:origin could not fill the path ({v})'
+        n = v[0]
+        time.sleep(0.3)
+        got = len(rest)
+        s.settimeout(4)
+        try:
+            while got < n:
+                d = s.recv(1 << 20)
+                if not d:
+                    break
+                got += len(d)
+        except OSError:
+            pass
+        if got != n:
+            return f'tls-backpressure:withheld {n - got} of {n} bytes (origin paused after its burst, connection open, client read for 4 s)'
+        return 'ok'
+    finally:
+        try:
+            s.sendall(b'x')
+        except OSError:
+            pass
         s.close()
 
 def run_cell(cell):
@@ -335,6 +439,11 @@ def run_cell(cell):
             out.append((sname, fn()))
         except Exception as e:
             out.append((sname, f'tunnel-not-established:{e!r}'[:200]))
+    if lname in ('http+tls', 'socks5+tls') and cname == 'direct':
+        try:
+            out.append(('tls-backpressure', script_tls_backpressure(lname, pa)))
+        except Exception as e:
+            out.append(('tls-backpressure', f'exception:{e!r}'[:200]))
     if THOROUGH:
         # three concurrent bulk tunnels
         rs = run_parallel([0, 1, 2], lambda i: script_bulk(lname, pa, n // 2 + i * 1001), workers=3)
